@@ -93,7 +93,7 @@ func wswriteGen(r *rng, maxops int, w *bufio.Writer) {
 		max = r.pick(65535, 65536, 66000)
 	}
 	fmt.Fprintf(w, "! new %d\n", max)
-	async := r.intn(3) == 0   // one mode per script: the stream allows one write in flight
+	async := r.intn(3) == 0 // one mode per script: the stream allows one write in flight
 	deferred := async && r.intn(2) == 0
 	if deferred {
 		fmt.Fprintf(w, "! defer 1\n")
